@@ -97,6 +97,15 @@ func (sdc *signingDoneCheck) listen(
 	// fields of the check are set again by the listen call of the next attempt
 	// and the goroutine of the previous attempt, which may be just about to
 	// quit, must not read them at the same time.
+	//
+	// If the previous attempt did not reach `waitUntilAllDone`, its receiver
+	// and consuming goroutine are still running. They validate messages
+	// against the previous attempt's parameters and must not record anything
+	// for this attempt so they are closed now.
+	if sdc.cancelReceiveCtx != nil {
+		sdc.cancelReceiveCtx()
+	}
+
 	receiveCtx, cancelReceiveCtx := context.WithCancel(ctx)
 	sdc.receiveCtx, sdc.cancelReceiveCtx = receiveCtx, cancelReceiveCtx
 
@@ -136,7 +145,11 @@ func (sdc *signingDoneCheck) listen(
 				}
 
 				sdc.doneSignersMutex.Lock()
-				sdc.doneSigners[doneMessage.senderID] = doneMessage
+				// Do not record the message if the receiver was closed in
+				// the meantime; the next attempt may be already listening.
+				if receiveCtx.Err() == nil {
+					sdc.doneSigners[doneMessage.senderID] = doneMessage
+				}
 				sdc.doneSignersMutex.Unlock()
 
 			case <-receiveCtx.Done():
